@@ -240,6 +240,14 @@ class CellCycleController:
             ):
                 pass
 
+    def _forget_operation(self, operation_id: str) -> None:
+        """A finished operation neither waits for nor blocks anything."""
+        self.dependency_graph.remove_all_for_agent(operation_id)
+        for lock in self.resources.values():
+            lock.waiting_list = [
+                (o, p) for o, p in lock.waiting_list if o != operation_id
+            ]
+
     def check_deadlock(self) -> Optional[DeadlockInfo]:
         """Check for deadlocks in current operations."""
         return self.dependency_graph.detect_cycle()
@@ -251,6 +259,7 @@ class CellCycleController:
         Releases all resources and cleans up.
         """
         self.release_all_resources(ctx)
+        self._forget_operation(ctx.operation_id)
         ctx.enter_phase(Phase.G0)
 
         if ctx.operation_id in self.active_operations:
@@ -277,6 +286,7 @@ class CellCycleController:
         Releases all resources and cleans up.
         """
         self.release_all_resources(ctx)
+        self._forget_operation(ctx.operation_id)
         ctx.enter_phase(Phase.G0)
 
         if ctx.operation_id in self.active_operations:
